@@ -35,7 +35,11 @@ RULE = ("case = (well-formed encoding, perturbation); encodings come from a "
         "non-handshake codecs (RecordHeader3/2, Alert, ChangeCipherSpec, "
         "Heartbeat, SessionTicketPayload v0/v1/v2, SSLv2 ClientHello / "
         "ServerHello / ClientMasterKey / Finished) with value-level "
-        "equality of the parsed fields; "
+        "equality of the parsed fields; the codec layer itself (sequences "
+        "of Parser calls on drawn buffers against a reference reader, "
+        "Writer.add against int.to_bytes, every truncation of every list "
+        "shape); re-used objects (parse then create*/parse again must "
+        "write like a fresh object); "
         "perturbations: none, every strict prefix, byte appended inside / "
         "outside the outer length, +-1 at every byte offset (blind sweep for "
         "encodings <= 300 bytes, sampled above), oversize fields for "
@@ -516,6 +520,10 @@ def check(case):
         return check_oversize(case)
     if case["src"] == "rec":
         return check_rec(case)
+    if case["src"] == "codec":
+        return check_codec(case)
+    if case["src"] == "reuse":
+        return check_reuse(case)
     try:
         kind, data, ctx, name = encoding_for(case)
     except ValueError as e:
@@ -823,6 +831,254 @@ def rec_oversize(what):
     return None
 
 
+# ---------------------------------------------------------------------------
+# the codec layer itself: Parser against a reference reader, Writer against
+# int.to_bytes
+# ---------------------------------------------------------------------------
+class _RefReader(object):
+    class Err(Exception):
+        pass
+
+    def __init__(self, data):
+        self.b = bytes(data)
+        self.i = 0
+        self.chk = None
+
+    def take(self, n):
+        if n < 0 or self.i + n > len(self.b):
+            raise self.Err()
+        r = self.b[self.i:self.i + n]
+        self.i += n
+        return r
+
+    def num(self, n):
+        return int.from_bytes(self.take(n), "big")
+
+
+def check_codec(case):
+    """ops: list of [name, args...] applied to one buffer; results (values
+    or 'decode error') and the final read position must match the reference
+    reader after every operation."""
+    from tlslite.utils.codec import Writer
+    data = bytes.fromhex(case["hex"])
+    labels = ["src=codec"]
+    p = Parser(bytearray(data))
+    r = _RefReader(data)
+    nt = False
+    for k, op in enumerate(case["ops"]):
+        name = op[0]
+        labels.append("op=" + name)
+        exp = got = None
+        try:
+            if name == "get":
+                exp = r.num(op[1])
+            elif name == "fix":
+                exp = r.take(op[1])
+            elif name == "skip":
+                r.take(op[1])
+                exp = None
+            elif name == "var":
+                exp = r.take(r.num(op[1]))
+            elif name == "fixlist":
+                exp = [r.num(op[1]) for _ in range(op[2])]
+            elif name == "varlist":
+                n = r.num(op[2])
+                if n % op[1]:
+                    raise r.Err()
+                # the whole list must be present
+                blob = r.take(n)
+                exp = [int.from_bytes(blob[i:i + op[1]], "big")
+                       for i in range(0, n, op[1])]
+            elif name == "vartuple":
+                n = r.num(op[3])
+                if n % (op[1] * op[2]):
+                    raise r.Err()
+                blob = r.take(n)
+                flat = [int.from_bytes(blob[i:i + op[1]], "big")
+                        for i in range(0, n, op[1])]
+                exp = [tuple(flat[i:i + op[2]])
+                       for i in range(0, len(flat), op[2])]
+            elif name == "remaining":
+                exp = len(data) - r.i
+            else:
+                raise HarnessError(name)
+            ref_err = False
+        except _RefReader.Err:
+            ref_err = True
+        try:
+            if name == "get":
+                got = p.get(op[1])
+            elif name == "fix":
+                got = bytes(p.getFixBytes(op[1]))
+            elif name == "skip":
+                p.skip_bytes(op[1])
+            elif name == "var":
+                got = bytes(p.getVarBytes(op[1]))
+            elif name == "fixlist":
+                got = list(p.getFixList(op[1], op[2]))
+            elif name == "varlist":
+                got = list(p.getVarList(op[1], op[2]))
+            elif name == "vartuple":
+                got = [tuple(x) for x in p.getVarTupleList(op[1], op[2],
+                                                           op[3])]
+            elif name == "remaining":
+                got = p.getRemainingLength()
+            real_err = False
+        except DECODE_ERRORS:
+            real_err = True
+        if ref_err:
+            nt = True
+        if ref_err != real_err:
+            return bad("parser-%s:%s" % (
+                "reads-past-buffer" if ref_err else "rejects-wellformed",
+                name), "buffer %s op %d %r: reference %s, Parser %s" % (
+                    data.hex()[:80], k, op,
+                    "error" if ref_err else repr(exp)[:60],
+                    "error" if real_err else repr(got)[:60]),
+                nt=True, labels=labels)
+        if ref_err:
+            break
+        if got != exp or p.index != r.i:
+            return bad("parser-differs:%s" % name,
+                       "buffer %s op %d %r: reference %r at %d, Parser %r "
+                       "at %d" % (data.hex()[:80], k, op, exp, r.i, got,
+                                  p.index), nt=True, labels=labels)
+    # Writer: add(x, n) either raises ValueError or equals to_bytes
+    for x, n in case.get("adds", []):
+        w = Writer()
+        try:
+            w.add(x, n)
+            out = bytes(w.bytes)
+        except ValueError:
+            out = None
+        want = x.to_bytes(n, "big") if x < 256 ** n else None
+        if out != want:
+            return bad("writer-add-%s" % ("wraps" if want is None
+                                          else "differs"),
+                       "add(%d, %d) -> %r" % (x, n, out), nt=True,
+                       labels=labels)
+    return good(nt=nt or bool(case.get("adds")), labels=labels)
+
+
+@st.composite
+def codec_case(draw):
+    n = draw(st.sampled_from([0, 1, 2, 3, 4, 5, 8, 16, 40]))
+    body = bytearray(draw(st.binary(min_size=n, max_size=n)))
+    # make small length prefixes likely to be consistent
+    if body and draw(st.booleans()):
+        body[0] = draw(st.integers(0, len(body)))
+    if len(body) > 1 and draw(st.booleans()):
+        body[0] = 0
+        body[1] = draw(st.integers(0, len(body)))
+    w = st.sampled_from([1, 2, 3, 4])
+    op = st.one_of(
+        st.tuples(st.just("get"), st.integers(1, 5)),
+        st.tuples(st.just("fix"), st.integers(0, 9)),
+        st.tuples(st.just("skip"), st.integers(0, 9)),
+        st.tuples(st.just("var"), st.integers(1, 3)),
+        st.tuples(st.just("fixlist"), w, st.integers(0, 5)),
+        st.tuples(st.just("varlist"), w, st.integers(1, 3)),
+        st.tuples(st.just("vartuple"), st.integers(1, 2), st.integers(1, 3),
+                  st.integers(1, 2)),
+        st.tuples(st.just("remaining"))).map(list)
+    adds = draw(st.lists(st.tuples(
+        st.one_of(st.sampled_from([0, 255, 256, 65535, 65536, 2 ** 24 - 1,
+                                   2 ** 24, 2 ** 32 - 1, 2 ** 32, 2 ** 40]),
+                  st.integers(0, 2 ** 33)),
+        st.integers(1, 5)).map(list), max_size=3))
+    return {"src": "codec", "hex": bytes(body).hex(),
+            "ops": draw(st.lists(op, min_size=1, max_size=4)),
+            "adds": adds, "mut": ["none"]}
+
+
+# ---------------------------------------------------------------------------
+# re-used objects: create() after parse() must serialise like a fresh object
+# ---------------------------------------------------------------------------
+def check_reuse(case):
+    """obj.parse(A); obj.create*(B) and a fresh object's create*(B) must
+    write the same bytes (nothing of A may survive into the encoding)."""
+    labels = ["src=reuse", "cls=" + case["cls"]]
+    c = corpus()
+    cls = case["cls"]
+    if cls == "ske":
+        cands = [e for e in c if e["bytes"][0] == 12]
+        if not cands:
+            return good(nt=False, labels=labels)
+        e = cands[case["idx"] % len(cands)]
+        ver = tuple(e["ctx"]["ver"])
+        suite = e["ctx"].get("suite")
+        used = parse_msg(e["bytes"], e["ctx"])
+        fresh = M.ServerKeyExchange(suite, ver)
+        from tlslite.constants import CipherSuite
+        if suite in CipherSuite.srpAllSuites:
+            kind = "srp"
+        elif suite in CipherSuite.dhAllSuites:
+            kind = "dh"
+        elif suite in CipherSuite.ecdhAllSuites:
+            kind = "ecdh"
+        else:
+            return good(nt=False, labels=labels)
+        n = case["n"]
+        args = None
+        if kind == "dh":
+            args = (int.from_bytes(prg("p", n) or b"\x01", "big") | 1, 2,
+                    int.from_bytes(prg("y", n) or b"\x01", "big"))
+            used.createDH(*args)
+            fresh.createDH(*args)
+        elif kind == "srp":
+            args = (int.from_bytes(prg("N", n) or b"\x01", "big") | 1, 2,
+                    prg("salt", 8),
+                    int.from_bytes(prg("B", n) or b"\x01", "big"))
+            used.createSRP(*args)
+            fresh.createSRP(*args)
+        else:
+            args = (3, 23, prg("pt", n))
+            used.createECDH(*args[:1], named_curve=args[1], point=args[2])
+            fresh.createECDH(*args[:1], named_curve=args[1], point=args[2])
+        for o in (used, fresh):
+            o.hashAlg, o.signAlg = 4, 1
+            o.signature = prg("sig", 64)
+        try:
+            a, b = bytes(used.write()), bytes(fresh.write())
+        except ValueError:
+            return good(nt=False, labels=labels + ["write-refused"])
+        if a != b:
+            return bad("reused-object-encodes-differently:ske:" + kind,
+                       "after parse(%s...) then create%s: %s vs fresh %s" % (
+                           e["bytes"][:12].hex(), kind.upper(),
+                           a[:40].hex(), b[:40].hex()), labels=labels)
+        back = M.ServerKeyExchange(suite, ver).parse(Parser(bytearray(a[1:])))
+        if kind == "dh" and back.dh_Ys != args[2]:
+            return bad("roundtrip-value-differs:ske", "dh_Ys", labels=labels)
+        return good(labels=labels + ["kind=" + kind])
+    # generic: parse one corpus message into an object, then parse another
+    # message of the same type into the same object
+    cands = {}
+    for e in c:
+        cands.setdefault((e["bytes"][0], tuple(e["ctx"]["ver"]),
+                          e["ctx"].get("suite")), []).append(e)
+    groups = [g for g in cands.values() if len(g) >= 2]
+    if not groups:
+        return good(nt=False, labels=labels)
+    g = groups[case["idx"] % len(groups)]
+    a, b = g[case["n"] % len(g)], g[(case["n"] + 1) % len(g)]
+    if a["bytes"] == b["bytes"]:
+        return good(nt=False, labels=labels + ["same"])
+    try:
+        obj = parse_msg(a["bytes"], a["ctx"])
+        p = Parser(bytearray(b["bytes"]))
+        p.get(1)
+        obj.parse(p)
+        out = bytes(obj.write())
+    except DECODE_ERRORS + (ValueError,) as ex:
+        return good(nt=False, labels=labels + ["reparse-refused"])
+    if out != b["bytes"]:
+        return bad("reused-object-encodes-differently:%s" % a["name"].split(
+            "/")[-1], "parse(A) then parse(B) writes %s, B is %s" % (
+                out[:40].hex(), b["bytes"][:40].hex()), labels=labels)
+    return good(labels=labels + ["generic"])
+
+
 def check_oversize(case):
     """(2) write() must raise ValueError instead of wrapping a length."""
     what = case["what"]
@@ -1096,7 +1352,15 @@ def mut_strategy():
 @st.composite
 def cases(draw, tier):
     src = draw(st.sampled_from(["corpus", "corpus", "msg", "msg", "ext",
-                                "rec"]))
+                                "rec", "codec", "reuse"]))
+    if src == "codec":
+        return draw(codec_case())
+    if src == "reuse":
+        return {"src": "reuse", "mut": ["none"],
+                "cls": draw(st.sampled_from(["ske", "generic"])),
+                "idx": draw(st.integers(0, 200)),
+                "kind": draw(st.sampled_from(["dh", "srp", "ecdh"])),
+                "n": draw(st.sampled_from([1, 2, 32, 65, 128, 256]))}
     c = {"src": src, "mut": draw(mut_strategy())}
     if src == "rec":
         c["spec"] = draw(rec_spec())
@@ -1138,6 +1402,28 @@ def explicit(tier, seed):
                  "rh2_len_pad", "alert_desc", "hb_payload", "stp_ms",
                  "stp_nonce", "stp_sn", "cmk_key", "sh2_cert", "ch2_sid"):
         yield {"src": "oversize", "what": what}
+    for idx in range(12):
+        for kind in ("dh", "srp", "ecdh"):
+            for nn in (2, 128, 256):
+                yield {"src": "reuse", "mut": ["none"], "cls": "ske",
+                       "idx": idx, "kind": kind, "n": nn}
+    for idx in range(30):
+        for nn in range(3):
+            yield {"src": "reuse", "mut": ["none"], "cls": "generic",
+                   "idx": idx, "n": nn}
+    # truncation inside every kind of list, directly at the codec layer
+    for w_ in (1, 2, 3):
+        for ll in (1, 2):
+            for cnt in (1, 3):
+                full = (cnt * w_).to_bytes(ll, "big") + bytes(range(
+                    1, cnt * w_ + 1))
+                for cut in range(len(full) + 1):
+                    yield {"src": "codec", "hex": full[:cut].hex(),
+                           "ops": [["varlist", w_, ll]], "adds": [],
+                           "mut": ["none"]}
+                    yield {"src": "codec", "hex": full[:cut].hex(),
+                           "ops": [["var", ll], ["remaining"]], "adds": [],
+                           "mut": ["none"]}
     for spec in REC_EXPLICIT:
         try:
             L = len(rec_build(spec).write())
